@@ -85,10 +85,10 @@ Print Assumptions C03_not_blocked.
 Definition idle_fallback : list (nat * lbl) :=
   map (fun a => (0, a))
     [ACount; AAppG Neg; ASnap; AMove; ACall (EvG 0); AAcq; ASetH; AArmTest; ARel; ASetHd HWake;
-     AAcq; AWTest; AClear; ARel; AWTestPos; AWTestNeg].
+     AAcq; ARdTl; AClear; ARel; ARdTl; ARdTl].
 Definition fire_upto_append : list (nat * lbl) := map (fun a => (1, a)) [AAcq; AFReadH; ACount; AAppF].
 Definition fire_rest : list (nat * lbl) :=
-  map (fun a => (1, a)) [AAcq; ARTest; ARWrite; ARHd; ARGet; ASig; ARel; ARel; ARet].
+  map (fun a => (1, a)) [AAcq; ARdTl; ARWrite; ARHd; ARGet; ASig; ARel; ARel; ARet].
 
 Example C03_ex_blocked_in_flight :
   exists s, run (init Fallback) (idle_fallback ++ fire_upto_append) = Some s /\
@@ -104,13 +104,13 @@ Proof. eexists. split; [vm_compute; reflexivity|]. vm_compute. repeat split; dis
 (* a firing thread that skipped resume() is not a behaviour of the model *)
 Example C03_ex_no_silent_return :
   accepts Fallback (idle_fallback ++ fire_upto_append ++
-                    map (fun a => (1, a)) [AAcq; ARTest; ARWrite; ARHd; ARGet; ARel]) = false.
+                    map (fun a => (1, a)) [AAcq; ARdTl; ARWrite; ARHd; ARGet; ARel]) = false.
 Proof. vm_compute. reflexivity. Qed.
 
 Example C03_ex_poller :
   exists s, run (init Poller)
       (map (fun a => (0, a)) [ACount; AAppG Neg; ASnap; AMove; ACall (EvG 0); AAcq; ASetH; AArmTest; ARel;
-                              ASetHd HWake; APRead] ++ fire_upto_append) = Some s /\
+                              ASetHd HWake; ARdTl] ++ fire_upto_append) = Some s /\
     blocked s = true /\ pending s = [EvF 0 0] /\ returned s (EvF 0 0) = false.
 Proof. eexists. split; [vm_compute; reflexivity|]. vm_compute. auto. Qed.
 
@@ -118,9 +118,9 @@ Proof. eexists. split; [vm_compute; reflexivity|]. vm_compute. auto. Qed.
 Example C03_ex_order :
   exists s, run (init Fallback)
     (idle_fallback ++ fire_upto_append ++ fire_rest ++
-     map (fun a => (2, a)) [AAcq; AFReadH; ACount; AAppF; AAcq; ARTest; ARel; ARel; ARet] ++
-     map (fun a => (1, a)) [AAcq; AFReadH; ACount; AAppF; AAcq; ARTest; ARel; ARel; ARet] ++
-     map (fun a => (0, a)) [AWait true; AWTestNeg; AClr; ACount; AAppG Neg; ASnap; AMove; AMove; AMove; AMove;
+     map (fun a => (2, a)) [AAcq; AFReadH; ACount; AAppF; AAcq; ARdTl; ARel; ARel; ARet] ++
+     map (fun a => (1, a)) [AAcq; AFReadH; ACount; AAppF; AAcq; ARdTl; ARel; ARel; ARet] ++
+     map (fun a => (0, a)) [AWait true; ARdTl; AClr; ACount; AAppG Neg; ASnap; AMove; AMove; AMove; AMove;
                             ACall (EvF 0 0); ASetH; ADisp (EvF 0 0); AClr; ACall (EvF 1 0); ASetH; AClr;
                             ACall (EvF 0 1); ASetH; AClr]) = Some s /\
     disp s = [EvG 0; EvF 0 0; EvF 1 0; EvF 0 1] /\ proj 0 (disp s) = [EvF 0 0; EvF 0 1] /\
@@ -131,8 +131,8 @@ Proof. eexists. split; [vm_compute; reflexivity|]. vm_compute. auto. Qed.
 Example C03_ex_progress :
   exists s s', run (init Fallback)
     (idle_fallback ++ fire_upto_append ++ fire_rest ++
-     map (fun a => (2, a)) [AAcq; AFReadH; ACount; AAppF; AAcq; ARTest; ARel; ARel; ARet] ++
-     map (fun a => (1, a)) [AAcq; AFReadH; ACount; AAppF; AAcq; ARTest; ARel; ARel; ARet]) = Some s /\
+     map (fun a => (2, a)) [AAcq; AFReadH; ACount; AAppF; AAcq; ARdTl; ARel; ARel; ARet] ++
+     map (fun a => (1, a)) [AAcq; AFReadH; ACount; AAppF; AAcq; ARdTl; ARel; ARel; ARet]) = Some s /\
     fpend s = [EvF 0 0; EvF 1 0; EvF 0 1] /\ measure s = 171 /\
     lrun 17 s = Some s' /\ fpend s' = [] /\ disp s' = [EvG 0; EvF 0 0; EvF 1 0; EvF 0 1] /\ lrun 16 s = None.
 Proof. eexists. eexists. split; [vm_compute; reflexivity|]. vm_compute. auto 10. Qed.
